@@ -104,8 +104,10 @@ Apis(mode, first) ==
     \* iter/mod: ModuleIterator / FunctionModifier at the location; *_at: their inject_at; comp/comp_at: the same
     \* through a ComponentIterator over a component that holds the module
     IF mode \in {"func_entry", "func_exit"} THEN {"iter", "mod", "comp"}
-    ELSE IF mode \in {"empty_alternate", "empty_block_alt"} THEN {"iter", "mod", "comp"}
-    ELSE IF first THEN {"iter", "mod", "iter_at", "mod_at", "comp", "comp_at"} ELSE {"iter"}
+    \* comp_loc: a ComponentIterator that stays on another module (a copy in front) and addresses the site by an
+    \* explicit Location naming the module under test
+    ELSE IF mode \in {"empty_alternate", "empty_block_alt"} THEN {"iter", "mod", "comp", "comp_loc"}
+    ELSE IF first THEN {"iter", "mod", "iter_at", "mod_at", "comp", "comp_at", "comp_loc"} ELSE {"iter"}
 
 \* instruction-level choices restricted to applicable modes
 ChoicesAt(p, first) ==
